@@ -232,7 +232,26 @@ pub fn check_one(model: &ZoneModel, tl: &Timeline, zr: TimeZoneRef<'_>, f: &Fiel
     if l > cal::max_unix() as i128 {
         // 23:59:60 of the last representable day denotes a civil second beyond the calendar: "converting back" is not definable
         st.exclude("23:59:60 on the last day of the calendar");
-        let _ = DateTime::find(f.y, f.mo, f.d, f.h, f.mi, f.s, f.ns, zr);
+        let got = DateTime::find(f.y, f.mo, f.d, f.h, f.mi, f.s, f.ns, zr);
+        if focus == Focus::C17 {
+            // no model answer, but the two search variants must still agree (C17: same entries, same order; same refusal)
+            let desc = || format!("zone {{trans: {:?}, types: {:?}, leaps: {:?}, trailer: {:?}}} local {:04}-{:02}-{:02}T{:02}:{:02}:{:02}", model.z.trans, model.z.types, model.z.leaps, model.z.trailer, f.y, f.mo, f.d, f.h, f.mi, f.s);
+            match got {
+                Ok(l) => {
+                    st.class("last_second_of_calendar_found");
+                    check_find_n(&l.into_inner(), f, zr, stale, st, &desc)?
+                }
+                Err(e) => {
+                    for n in 0..3 {
+                        let mut buf = vec![None; n];
+                        match DateTime::find_n(&mut buf, f.y, f.mo, f.d, f.h, f.mi, f.s, f.ns, zr) {
+                            Err(e2) if format!("{e2:?}") == format!("{e:?}") => {}
+                            other => return Err(format!("{}: find failed with {e:?} but find_n(len {n}) gave {:?}", desc(), other.map(|l| l.count()))),
+                        }
+                    }
+                }
+            }
+        }
         return Ok(());
     }
     let got = DateTime::find(f.y, f.mo, f.d, f.h, f.mi, f.s, f.ns, zr);
@@ -301,6 +320,14 @@ pub fn check_one(model: &ZoneModel, tl: &Timeline, zr: TimeZoneRef<'_>, f: &Fiel
                 check_dt(d).map_err(|m| format!("{}: {m}", desc()))?;
                 if d.nanoseconds() != f.ns {
                     return Err(format!("{}: entry nanoseconds {} != searched {}", desc(), d.nanoseconds(), f.ns));
+                }
+                if focus == Focus::C14 {
+                    // the entry is a date-time built from the searched fields and its local time type: the fields constructor
+                    // must build the very same value (and refuses instants outside the supported range - so must the search)
+                    match DateTime::new(f.y, f.mo, f.d, f.h, f.mi, f.s, f.ns, *d.local_time_type()) {
+                        Ok(x) if fields_of(&x) == fields_of(d) => {}
+                        other => return Err(format!("{}: the search returned {d} (unix {}), but DateTime::new with the same fields and local time type gives {:?}", desc(), d.unix_time(), other.map(|x| (x.to_string(), x.unix_time())))),
+                    }
                 }
             }
             FoundDateTimeKind::Skipped { before_transition, after_transition } => {
@@ -641,6 +668,11 @@ pub fn check_search(c: &SearchCase, focus: Focus, st: &mut Stats) -> Result<(), 
             Some(l) => l,
             None => continue,
         };
+        if let (Query::Civil(ff), true) = (q, l == cal::max_unix() as i128 + 1) {
+            // 23:59:60 on the last day of the calendar: valid fields; check_one decides what can be asserted there
+            check_one(&model, &tl, zr, ff, focus, &mut stale, st)?;
+            continue;
+        }
         if l < cal::min_unix() as i128 || l > cal::max_unix() as i128 {
             st.exclude("derived local time outside the calendar range");
             continue;
@@ -787,6 +819,21 @@ pub fn regression_cases() -> Vec<SearchCase> {
         queries: q,
         sec60_every: 2,
     });
+    // both ends of the calendar (first / last seconds, incl. 23:59:60 of the last day) in fixed, table-only and DST-rule zones of either sign
+    let mut edge = vec![];
+    for (y, mo, d) in [(i32::MAX, 12u8, 31u8), (i32::MAX, 12, 30), (i32::MIN, 1, 1), (i32::MIN, 1, 2)] {
+        for (h, mi, s) in [(23u8, 59u8, 60u8), (23, 59, 59), (23, 0, 0), (22, 59, 59), (0, 0, 0), (0, 0, 1), (0, 59, 60), (1, 0, 0), (12, 0, 0)] {
+            edge.push(Query::Civil(Fields { y, mo, d, h, mi, s, ns: 5 }));
+        }
+    }
+    for off in [0, 1, -1, 3600, -3600, 50_400, -43_200] {
+        let a = MLtt::new(off, false, Some("AAA"));
+        let b = MLtt::new(off + 3600, true, Some("BBB"));
+        let r = MRule { std: a.clone(), dst: b.clone(), start: MDay::M(3, 2, 0), start_time: 7200, end: MDay::M(11, 1, 0), end_time: 7200 };
+        for (trans, trailer) in [(vec![], MTrailer::None), (vec![], MTrailer::Fixed(a.clone())), (vec![(0i64, 1usize), (86_400, 0)], MTrailer::None), (vec![(0, 1), (86_400, 0)], MTrailer::Fixed(a.clone())), (vec![], MTrailer::Alt(r.clone()))] {
+            v.push(SearchCase { zone: MZone { trans, types: vec![a.clone(), b.clone()], leaps: vec![], trailer }, base_year: 2000, queries: edge.clone(), sec60_every: 0 });
+        }
+    }
     v
 }
 
